@@ -461,6 +461,16 @@ def c09h(ctx):
         for s_ in ins:
             if not any(x.kind == "param" for x in df.origins_deep(prog, b, s_.node["args"][1])):
                 ctx.fail(o, s_, "what is inserted is not the element that was passed in")
+        # a set that did not exist is published in the map: the Vacant arm inserts it on every path
+        pub = b.calls_to(r"VacantEntry::<[^>]*>::insert_entry$")
+        vac = [(sb, tb) for sb, tb, v, c in df.variant_edges(b, "hash_map::Entry") if v == 1]
+        o.sites += len(pub)
+        if not pub or not vac:
+            ctx.fail(o, Site(b, 0, 0), "anchor missing: the Vacant arm of InMemoryKeyOfSetMap::insert (insert_entry=%d, Vacant edges=%d)" % (len(pub), len(vac)))
+        else:
+            for sb, tb in vac:
+                if b.must_pass([tb], [p_.bb for p_ in pub]):
+                    ctx.fail(o, Site(b, tb, 0), "InMemoryKeyOfSetMap::insert creates a new set for a key but can return without publishing it in the map: the element is lost")
 
 
 def c09g_staging(ctx):
